@@ -607,7 +607,8 @@ fn gen_stream_spec(r: &mut Rng, n: usize, sr: u32) -> StreamSpec {
 	let len = slice.map(|(a, b)| b - a).unwrap_or(n);
 	let start = if r.chance(0.5) { 0 } else { r.usize_in(0, len - 2) };
 	let lp = if r.chance(0.3) && len > 3000 {
-		let a = r.usize_in(0, len - 2500);
+		// (also loop starts on a packet boundary of the file: 1152 frames for symphonia's WAV reader)
+		let a = if r.chance(0.3) { (r.usize_in(0, len - 2500) / 1152) * 1152 } else { r.usize_in(0, len - 2500) };
 		let b = r.usize_in(a + 1500, len);
 		Some((a, b))
 	} else {
@@ -631,6 +632,17 @@ fn gen_stream_spec(r: &mut Rng, n: usize, sr: u32) -> StreamSpec {
 					r.usize_in(0, len - 2)
 				}
 			}
+		};
+		// rewinds, packet-aligned targets and the same target twice in a row
+		let k = if lp.is_none() && r.chance(0.15) {
+			0
+		} else if lp.is_none() && r.chance(0.25) {
+			(k / 1152) * 1152
+		} else if r.chance(0.2) && !seeks.is_empty() {
+			let (_, _, l): &(usize, f64, Vec<usize>) = seeks.last().unwrap();
+			l[0]
+		} else {
+			k
 		};
 		seeks.push((cb, (k as f64 + 0.25) / sr as f64, vec![k]));
 	}
